@@ -122,6 +122,9 @@ func (t *treeSimple) mkdir(r io.Reader, cfg *config) error {
 	if err := t.grower.grow(roots); err != nil {
 		return err
 	}
+	if cfg.dryrun {
+		return t.spreader.spread(color.Output, roots)
+	}
 	return t.mkdirer.mkdir(roots)
 }
 
